@@ -17,6 +17,15 @@ CLAIMS = {
         'It does not decide equality of resumed and uninterrupted runs over crash points (runtime histories).',
    design='DESIGN.md section 4 C09; rules R-ATOMIC, R-ORDER, R-DEFASSIGN, R-PAIR, R-CONST',
    technique='CFG dominance / must-pass-through + reaching definitions + callee write-summaries (custom AST analysis)'),
+ 'C10': dict(
+   text='Static analysis (level "other"): a flow-sensitive alias analysis with per-function summaries shows that no heap '
+        'write in any function of fedjax/algorithms, fedjax/aggregators (and the evaluator triples of core/models) reaches '
+        'an object aliased with a parameter, a module global, or a closure variable that outlives one invocation; state '
+        'classes are frozen pytree dataclasses; no global RNG or clock is consulted; nothing reachable from the arguments '
+        'is at a donated position; the key stored in the next compression state is a fresh split output used nowhere '
+        'else. It does not decide value equality of two calls or pickle round trips.',
+   design='DESIGN.md section 4 C10; rules R-PURE, R-DONATE, R-KEY K3, R-FROZEN, R-NONDET',
+   technique='interprocedural alias/mutation analysis over reaching definitions + PRNG-key linearity typestate'),
  'C19': dict(
    text='Static analysis (level "other"): for each cache completion marker (a path whose existence skips work) every '
         'writer that can create it is shown, on all normal CFG paths, to write a distinct temp name and publish it by '
